@@ -29,8 +29,8 @@ EXTENDS Integers, Sequences, FiniteSets, TLC, Json
 CONSTANTS TreeFile
 
 \* the step relation; the enumeration part of WuffsObject (its constants and variables) is not used here
-W == INSTANCE WuffsObject WITH Kind <- "xform", NFrames <- 1, HasMeta <- FALSE, Scenario <- "none", StartOk <- TRUE,
-                               Depth <- 0, DoExport <- FALSE, st <- 0, last <- 0, hist <- 0, exps <- 0, mem0 <- 0
+W == INSTANCE WuffsObject WITH Configs <- {}, Tier <- "none", SimDepth <- 0, DoExport <- FALSE,
+                               run <- 0, st <- 0, last <- 0, hist <- 0, exps <- 0, mem0 <- 0, sts <- 0
 IO == INSTANCE IOClauses
 
 Tree  == JsonDeserialize(TreeFile)     \* [nodes |-> <<[ev |-> event, kids |-> <<node ids>>], ...>>, roots |-> <<node ids>>]
